@@ -98,6 +98,8 @@ function deepmergeConstructor(options: any) {
       value !== null &&
       !(value instanceof RegExp) &&
       !(value instanceof Date) &&
+      !(value instanceof Map) &&
+      !(value instanceof Set) &&
       !ArrayBuffer.isView(value)
     );
   }
